@@ -9,13 +9,13 @@ from . import streambase as sb
 
 ID = 'C12'
 LEVEL = 'exploration'
-RULE = ('2-6 scanner instances per run: several instances of one reentrant (cpp or c99 back end) scanner, and scanners generated with different prefixes (one of '
-        'them non-reentrant) linked into one executable.  Instances are real pthreads; exactly one holds the baton, which is handed over at '
+RULE = ('2-6 scanner instances per run: several instances of one reentrant C scanner (a third of them built with --tables-file: serialized tables loaded once and shared), '
+        'of one c99 scanner or of one C++ lexer class, and 2-3 scanners generated with different prefixes (non-reentrant ones included) linked into one executable.  Instances are real pthreads; exactly one holds the baton, which is handed over at '
         'every simulator callback (read, allocation, action entry, yywrap, between top-level calls) according to the plan\'s seeded schedule, '
         'so one seed is one interleaving.  Oracle: each instance\'s projected event log (tokens, op results, reads, allocator calls, fatal '
         'errors) equals the log of the same instance run alone; no pointer crosses instances in the allocation ledger; the multi-prefix '
         'executable links.  Supplementary free-running mode: the same workload without the baton under ThreadSanitizer (runtime monitoring, '
-        'reported only when it reproduces 3 of 3).  distinct = interleaving string (sequence of baton hand-overs), non-trivial = >= 2 '
+        'reported only when it reproduces in 3 of 6 repetitions).  distinct = interleaving string (sequence of baton hand-overs), non-trivial = >= 2 '
         'instances each delivering >= 2 tokens with >= 3 hand-overs')
 TIERS = {
     'quick': {'scenarios': 40, 'plans': 60, 'tsan_scenarios': 2, 'tsan_plans': 6, 'wall_cap': 600},
